@@ -29,7 +29,7 @@ ASSUMPTIONS = ["a thread switch inside a single C call (deque.append, dict get/s
                "per-consumer order only: cross-consumer receive order is not observable without perturbing the schedule"]
 REQUIRED_PROBES = ["switch_inside_transport", "two_publishers_same_fresh_channel", "wildcard_subscription", "callback_mode",
                    "subscription_closed_early", "subscription_closed_by_other_task",
-                   "transport_closed_and_reconnected", "callback_raised_in_runner_thread", "deep_backlog_before_first_consumer", "async_consumer_cancelled_mid_iteration"]
+                   "transport_closed_and_reconnected", "callback_raised_in_runner_thread", "deep_backlog_before_first_consumer", "async_consumer_cancelled_mid_iteration", "consumer_published_to_the_channel_it_reads"]
 CONFIG = {
     "quick": {"runs": 60000, "budget_s": 240, "timeout_s": 20, "per_fork": 25},
     "thorough": {"runs": 3000000, "budget_s": 1500, "timeout_s": 20, "per_fork": 50},
@@ -68,7 +68,8 @@ def generate(rng: random.Random, tier: str, seed: int) -> dict:
                      "pause": rng.choice([0.0, 0.0005, 0.003]),
                      "close_after": rng.choice([None, None, None, 1, 2]),    # close() the subscription after k messages
                      "closer": rng.random() < 0.2,                             # ANOTHER task close()s the subscription at some point
-                     "cb_raises_at": rng.choice([None, None, 1, 2])})         # callback mode: the user's callback raises on its k-th message
+                     "cb_raises_at": rng.choice([None, None, 1, 2]),
+                     "republish_at": rng.choice([None, None, None, 1, 2])})   # iterator mode: while handling its k-th message the consumer publishes a follow-up to that same channel         # callback mode: the user's callback raises on its k-th message
     return {"existing": existing, "pubs": pubs, "subs": subs, "strategy": rng.choice(threads.STRATEGIES),
             # publishers far ahead of a late subscriber: a deep backlog on one channel before any consumer exists
             "bulk": {"channel": rng.choice(CHANNELS), "n": rng.choice([600, 1100, 2200, 4500])} if rng.random() < 0.02 else None,
@@ -147,6 +148,13 @@ def execute(sc: dict, seed: int) -> dict:
                         for msg in sub:
                             take(msg)
                             taken += 1
+                            if spec.get("republish_at") == taken and r == 0 and msg.data[0] != f"re{sid}":
+                                # a consumer that answers on the channel it is reading from (request/ack on one channel)
+                                item = [f"re{sid}", msg.data[1], 0]
+                                published.append(item)
+                                sched.log("publish", item)
+                                tr.publish(msg.data[1], data=item, context=ContextType())
+                                sched.probe("consumer_published_to_its_own_channel")
                             if spec.get("close_after") is not None and taken >= spec["close_after"]:
                                 sub.close()          # early close: what was not taken must stay available to others
                                 sched.probe("early_close")
@@ -273,6 +281,8 @@ def execute(sc: dict, seed: int) -> dict:
         stats["probe.wildcard_subscription"] = 1
     if any(s["callback"] for s in sc["subs"]):
         stats["probe.callback_mode"] = 1
+    if sched.probes.get("consumer_published_to_its_own_channel"):
+        stats["probe.consumer_published_to_the_channel_it_reads"] = 1
     if sched.probes.get("callback_raised"):
         stats["probe.callback_raised_in_runner_thread"] = 1
         stats["fault.consumer_callback_exception"] = sched.probes["callback_raised"]
@@ -336,7 +346,7 @@ def _structural_candidates(sc: dict):
         if sc["bulk"]["n"] > 600:
             yield dict(sc, bulk=dict(sc["bulk"], n=sc["bulk"]["n"] // 2))
     for i, s in enumerate(sc["subs"]):
-        if s["rounds"] > 1 or s["callback"] or s["pause"] or s.get("close_after") or s.get("closer") or s.get("cb_raises_at"):
-            yield dict(sc, subs=sc["subs"][:i] + [dict(s, rounds=1, callback=False, pause=0.0, close_after=None, closer=False, cb_raises_at=None)] + sc["subs"][i + 1:])
+        if s["rounds"] > 1 or s["callback"] or s["pause"] or s.get("close_after") or s.get("closer") or s.get("cb_raises_at") or s.get("republish_at"):
+            yield dict(sc, subs=sc["subs"][:i] + [dict(s, rounds=1, callback=False, pause=0.0, close_after=None, closer=False, cb_raises_at=None, republish_at=None)] + sc["subs"][i + 1:])
     if sc["strategy"].get("kind") != "pct" or sc["strategy"].get("d", 0) > 1:
         yield dict(sc, strategy={"kind": "pct", "d": 1})
